@@ -66,6 +66,15 @@ def _loop_measure(ctx, fn, w: ast.While):
             if ok:
                 return 'counter incremented by a positive constant on every iteration'
             return None
+    # (d) descending counter: `while v > / >= bound:` with `v -= <positive constant>` on every way round, nothing else storing v
+    if isinstance(w.test, ast.Compare) and len(w.test.ops) == 1 and isinstance(w.test.ops[0], (ast.Gt, ast.GtE)) and isinstance(w.test.left, ast.Name) \
+            and isinstance(w.test.comparators[0], ast.Constant):
+        v = w.test.left.id
+        decs = [n for n in walk_no_nested(w) if isinstance(n, ast.AugAssign) and unparse(n.target) == v and isinstance(n.op, ast.Sub)]
+        other = [n for n in ast.walk(w) if isinstance(n, ast.Name) and n.id == v and isinstance(n.ctx, ast.Store) and not any(n is d.target for d in decs)]
+        if decs and not other and g.all_paths_through(be, head, {g.node_of(n) for n in decs}) \
+                and all(isinstance(n.value, ast.Constant) and isinstance(n.value.value, int) and n.value.value >= 1 for n in decs):
+            return 'counter decremented by a positive constant on every iteration, compared with a constant lower bound'
     return None
 
 
